@@ -1308,3 +1308,88 @@ def fuse_comprehension_loops(fn: ast.AST) -> bool:
     if changed:
         ast.fix_missing_locations(fn)
     return changed
+
+
+# ---------------------------------------------------------------------------
+def fold_substituted_tests(fn: ast.AST, is_method) -> bool:
+    """After a helper was expanded with its arguments substituted, tests on an optional parameter are decided:
+    `self.flush is not None` (a bound method is never None), `None is None`, `'x' == 'x'`, `callable(self.m)`.
+    The arm that cannot run is dropped.  `is_method(name)` says whether `self.<name>` is a plain method of the class."""
+    changed = False
+
+    def ev(t):
+        if isinstance(t, ast.Constant) and isinstance(t.value, bool):
+            return t.value
+        if isinstance(t, ast.UnaryOp) and isinstance(t.op, ast.Not):
+            v = ev(t.operand)
+            return None if v is None else not v
+        if isinstance(t, ast.BoolOp):
+            vs = [ev(v) for v in t.values]
+            if isinstance(t.op, ast.And):
+                return False if any(v is False for v in vs) else (True if all(v is True for v in vs) else None)
+            return True if any(v is True for v in vs) else (False if all(v is False for v in vs) else None)
+        if isinstance(t, ast.Compare) and len(t.ops) == 1:
+            l, r, op = t.left, t.comparators[0], t.ops[0]
+
+            def kind(x):
+                if isinstance(x, ast.Constant):
+                    return ("const", x.value)
+                if isinstance(x, ast.Attribute) and isinstance(x.value, ast.Name) and x.value.id == "self" and is_method(x.attr):
+                    return ("method", x.attr)
+                return None
+            kl, kr = kind(l), kind(r)
+            if kl is None or kr is None:
+                return None
+            if isinstance(op, (ast.Is, ast.IsNot)):
+                if kl[0] == "method" and kr == ("const", None) or kr[0] == "method" and kl == ("const", None):
+                    same = False
+                elif kl[0] == kr[0] == "const" and (kl[1] is None or kr[1] is None or isinstance(kl[1], bool) or isinstance(kr[1], bool)):
+                    same = kl[1] is kr[1]
+                else:
+                    return None
+                return same if isinstance(op, ast.Is) else not same
+            if isinstance(op, (ast.Eq, ast.NotEq)) and kl[0] == kr[0] == "const":
+                return (kl[1] == kr[1]) if isinstance(op, ast.Eq) else (kl[1] != kr[1])
+            return None
+        if isinstance(t, ast.Call) and isinstance(t.func, ast.Name) and t.func.id == "callable" and len(t.args) == 1:
+            a = t.args[0]
+            if isinstance(a, ast.Attribute) and isinstance(a.value, ast.Name) and a.value.id == "self" and is_method(a.attr):
+                return True
+            if isinstance(a, ast.Constant) and a.value is None:
+                return False
+        return None
+
+    def rewrite(blk):
+        nonlocal changed
+        i = 0
+        while i < len(blk):
+            s = blk[i]
+            if isinstance(s, ast.If):
+                v = ev(s.test)
+                if v is not None:
+                    keep = s.body if v else s.orelse
+                    blk[i : i + 1] = keep or []
+                    changed = True
+                    continue
+            for fld in ("body", "orelse", "finalbody"):
+                b = getattr(s, fld, None)
+                if isinstance(b, list) and b and isinstance(b[0], ast.stmt) and not isinstance(s, (ast.FunctionDef, ast.AsyncFunctionDef, ast.ClassDef)):
+                    rewrite(b)
+                    if not b and fld == "body":
+                        b.append(ast.copy_location(ast.Pass(), s))
+            if isinstance(s, ast.Try):
+                for h in s.handlers:
+                    rewrite(h.body)
+                    if not h.body:
+                        h.body.append(ast.copy_location(ast.Pass(), s))
+            if isinstance(s, ast.Match):
+                for c in s.cases:
+                    rewrite(c.body)
+            i += 1
+
+    rewrite(fn.body)
+    if not fn.body:
+        fn.body.append(ast.Pass())
+    if changed:
+        ast.fix_missing_locations(fn)
+    return changed
